@@ -35,6 +35,7 @@ OBLIGATION_MSG = [
     ('could not prove termination', 'decreases'),
     ('failed to prove', 'assert'),
     ('index out of bounds', 'index'),
+    ('may fail to meet its declared type invariant', 'type-invariant'),
     ('unreachable', 'unreachable'),
     ('cannot prove', 'assert'),
 ]
